@@ -5,10 +5,12 @@ go 1.21.0
 require (
 	Havoc v0.0.0
 	github.com/gin-gonic/gin v1.10.0
+	github.com/zclconf/go-cty v1.15.0
 )
 
 require (
 	github.com/agext/levenshtein v1.2.3 // indirect
+	github.com/anishathalye/porcupine v1.3.0
 	github.com/apparentlymart/go-textseg/v13 v13.0.0 // indirect
 	github.com/apparentlymart/go-textseg/v15 v15.0.0 // indirect
 	github.com/fatih/color v1.17.0 // indirect
@@ -30,7 +32,6 @@ require (
 	github.com/pelletier/go-toml/v2 v2.2.3 // indirect
 	github.com/rivo/uniseg v0.4.7 // indirect
 	github.com/ugorji/go/codec v1.2.12 // indirect
-	github.com/zclconf/go-cty v1.15.0 // indirect
 	golang.org/x/crypto v0.27.0 // indirect
 	golang.org/x/image v0.20.0 // indirect
 	golang.org/x/net v0.29.0 // indirect
